@@ -168,7 +168,7 @@ class Run:
     def __init__(self, pid, tier, seed, level):
         self.pid, self.tier, self.seed, self.level = pid, tier, seed, level
         self.t0 = time.time()
-        self.work = os.path.join(WORK, pid)
+        self.work = os.path.join(WORK, pid if tier == "quick" else pid + "-thorough")
         shutil.rmtree(self.work, ignore_errors=True)
         os.makedirs(self.work, exist_ok=True)
         os.makedirs(REPLAYS, exist_ok=True)
